@@ -165,7 +165,7 @@ def _wrap_sync[**Args, Result](
                         case None:
                             continue
 
-                        case float(strict):
+                        case int() | float() as strict:
                             sleep_sync(strict)
 
                         case make_delay:  # type: Callable[[], float]
@@ -211,7 +211,7 @@ def _wrap_async[**Args, Result](
                         case None:
                             continue
 
-                        case float(strict):
+                        case int() | float() as strict:
                             await sleep(strict)
 
                         case make_delay:  # type: Callable[[], float]
